@@ -473,6 +473,60 @@ void run_fwd_case(Ctx &ctx, int64_t kase, Rng &r, const DomInfo &d) {
         }
       }
     }
+    // singleton-region stress: the two arms of a branch allocate through different variables into a
+    // region nobody else points into; after the join one of them is re-allocated and both are used
+    if (sparse_refs && r.coin()) {
+      int R = reg_vars[r.below(2)];
+      std::vector<int> mine;
+      for (int rv : ref_vars)
+        if (reg_of[rv] == R) mine.push_back(rv);
+      int br = -1;
+      for (size_t bi = 0; bi < f0.blocks.size(); ++bi)
+        if (f0.blocks[bi].succs.size() == 2 && f0.blocks[bi].succs[0] != f0.blocks[bi].succs[1]) br = (int)bi;
+      if (mine.size() >= 2 && br >= 0) {
+        int ra = mine[0], rb = mine[1];
+        // no other allocation into R in the entry block
+        for (auto it = pro.begin(); it != pro.end();)
+          if ((it->kind == S_MAKE_REF && it->a == R) || (it->kind == S_REF_STORE && it->a == R) || (it->kind == S_REF_GEP && it->reg2 == R)) it = pro.erase(it);
+          else ++it;
+        for (int rv : mine) {
+          Stmt n;
+          n.kind = S_REF_ASSUME;
+          n.op = 0;
+          n.a = rv;
+          pro.push_back(n);
+        }
+        auto at_start = [&](int blk, const Stmt &st) {
+          auto &v = f0.blocks[blk].stmts;
+          size_t lo = 0;
+          while (lo < v.size() && (v[lo].kind == S_ASSUME || v[lo].kind == S_BASSUME)) lo++;
+          v.insert(v.begin() + lo, st);
+        };
+        Stmt ma, mb;
+        ma.kind = mb.kind = S_MAKE_REF;
+        ma.lhs = ra, mb.lhs = rb;
+        ma.a = mb.a = R;
+        ma.k = mb.k = 16;
+        ma.id = next_site++;
+        mb.id = next_site++;
+        at_start(f0.blocks[br].succs[0], ma);
+        at_start(f0.blocks[br].succs[1], mb);
+        // use site: any block other than the branch and the entry
+        int use = (int)r.below(f0.blocks.size());
+        std::vector<Stmt> seq(5);
+        seq[0].kind = S_REF_ASSUME, seq[0].op = 1, seq[0].a = rb;
+        seq[1].kind = S_REF_STORE, seq[1].lhs = rb, seq[1].a = R, seq[1].b_is_const = true, seq[1].k = 7;
+        seq[2].kind = S_MAKE_REF, seq[2].lhs = ra, seq[2].a = R, seq[2].k = 16, seq[2].id = next_site++;
+        seq[3].kind = S_REF_STORE, seq[3].lhs = ra, seq[3].a = R, seq[3].b_is_const = true, seq[3].k = 5;
+        seq[4].kind = S_REF_LOAD, seq[4].a = rb, seq[4].b = R, seq[4].lhs = i32.empty() ? g.ints[0] : i32[r.below(i32.size())];
+        if (p.vars[seq[4].lhs].width == 32 && use != (int)f0.entry) {
+          auto &v = f0.blocks[use].stmts;
+          size_t lo = 0, hi = v.size();
+          while (lo < hi && (v[lo].kind == S_ASSUME || v[lo].kind == S_BASSUME)) lo++;
+          v.insert(v.begin() + lo, seq.begin(), seq.end());
+        }
+      }
+    }
     auto &eb = f0.blocks[f0.entry].stmts;
     eb.insert(eb.begin(), pro.begin(), pro.end());
   }
